@@ -2,7 +2,7 @@
 
 ENGINES = [
     dict(name='symx', path='/verif/symx',
-         serves_properties=['C01'],
+         serves_properties=['C01', 'C03', 'C07'],
          kind_free_text='symbolic execution of the real emsarray functions on numpy/xarray object arrays of z3-backed '
                         'scalars; fork-by-re-execution path explorer; every path closed by z3 verdict queries and a '
                         'concrete replay of a model on the unmodified stack'),
@@ -20,6 +20,29 @@ CHECKS = {
         design_ref='DESIGN.md section 4, C01',
         note='numpy.ravel_multi_index/unravel_index are replaced by their documented contract (mode/order honoured, '
              'conformance-tested against real numpy each run); grid shapes are enumerated up to 3x3 (quick) / 6x6 (thorough).',
+    ),
+    'C03': dict(
+        engine='symx',
+        technique='symbolic execution of the real ravel/wind code on object arrays of z3 reals (value+NaN flag); z3 decides term identity per element',
+        text='For each enumerated layout (convention, grid kind, 0-3 extra dimensions, permutation, winding mode) every data '
+             'value is an arbitrary real-or-NaN; z3 shows each output element is the input element the reference layout puts '
+             'there, for ravel, wind(ravel) and ravel(wind); off-grid variables are refused; find_unused_dimension over all '
+             'subsets of an 8-name universe.',
+        design_ref='DESIGN.md section 4, C03',
+        note='No stubs. Dimension sizes are concrete (grid 2x3 / mesh tqp, extras 4,5,1). Object-array movement is assumed to '
+             'equal float64 movement; one float witness per path is replayed on the unmodified stack.',
+    ),
+    'C07': dict(
+        engine='symx',
+        technique='symbolic execution of the real mask primitives on arrays of z3 Bools (all arrays of a shape in one query); '
+                  'solver-guided enumeration of hit subsets behind an STRtree contract',
+        text='smear_mask / c_mask_from_centres: one unsat query per shape covers every boolean array up to 4x4; blur_mask: '
+             'all arrays up to 3x3 (quick) / 4x4 (thorough), size 0..3; make_clip_mask on every convention: all hit subsets, '
+             'buffers 0..3, incl. edge/node masks and mesh renumbering; monotonicity on the reference formulas.',
+        design_ref='DESIGN.md section 4, C07',
+        note='GEOS intersects is abstracted to a symbolic hit set per cell (STRtree contract: exactly the positions with '
+             'geometry that satisfy the predicate, any order); counterexamples are realised with several real geometries '
+             'and replayed on the unpatched stack.',
     ),
 }
 
